@@ -106,6 +106,9 @@ META = dict(
 META["rule"] += (
     " " + 'Added later: the generators also through the dispatcher `Network.Model(name, **kw)` with the same seed (same graph, as a Network object).')
 
+META["rule"] += (
+    " " + 'Added after the sixth round: the null model of RandomlySetCrossLinks(_sparse) over all group sizes 1..12 x 1..12 with six cross link counts each.')
+
 EPS_FLOAT_SLACK = 1e-5
 HARD_KILL_S = 25
 
@@ -868,6 +871,47 @@ def case_cross_set(ctx, k, cid):
                     "cross_links_before": c0, "after": c1})
 
 
+def case_cross_null(ctx, k, cid):
+    """The null model (no count, no density given: 'as many cross links as
+    the input network has') over group sizes 1..12 x 1..12 and six cross
+    link counts each, dense and sparse variant: whatever arithmetic derives
+    the count, it is the input's."""
+    from pyunicorn.core.interacting_networks import InteractingNetworks as IN
+    n1, n2 = 1 + k % 12, 1 + (k // 12) % 12
+    r = ctx.rng("xnull", k)
+    nodes1 = list(range(n1))
+    nodes2 = list(range(n1, n1 + n2))
+    n = n1 + n2
+    for c0 in sorted(set(int(v) for v in r.integers(0, n1 * n2 + 1, 6))):
+        A = np.zeros((n, n), dtype=np.int8)
+        for q in r.permutation(n1 * n2)[:c0]:
+            i, j = nodes1[q // n2], nodes2[q % n2]
+            A[i, j] = A[j, i] = 1
+        ok, net = ctx.call(IN, adjacency=A.copy(), silence_level=3)
+        if not ok:
+            ctx.count("rejected")
+            return
+        for name in ("RandomlySetCrossLinks",
+                     "RandomlySetCrossLinks_sparse"):
+            seed_lib(r)
+            with warnings.catch_warnings():
+                warnings.simplefilter("ignore")
+                ok, res = ctx.call(getattr(IN, name), net, nodes1, nodes2)
+            ctx.evals()
+            ctx.count("cross_null_model")
+            det = {"n1": n1, "n2": n2, "cross_links": c0}
+            if not ok:
+                raises(ctx, f"{name}:null", res, det, cid)
+                continue
+            B1 = np.asarray(res.adjacency) != 0
+            c1 = int(B1[np.ix_(nodes1, nodes2)].sum())
+            if 0 < c0 < n1 * n2:
+                ctx.nontrivial(("xnull", n1, n2, c0, name))
+            if c1 != c0:
+                ctx.violation(f"{name}:null:cross-link-count-differs",
+                              {**det, "got": c1}, cid)
+
+
 def cross_admissible(CA):
     """Number of ordered pairs of cross links (a,b),(c,d) with neither (a,d)
     nor (c,b) linked (brute force)."""
@@ -1136,6 +1180,7 @@ def run(ctx):
         ("kgeo", case_kernel_geo, 30000 if T else 800, 10),
         ("model", case_model, 90000 if T else 2400, 10),
         ("xset", case_cross_set, 60000 if T else 1500, 10),
+        ("xnull", case_cross_null, 1440 if T else 144, 10),
         ("dist", case_dist, 18000 if T else 480, 10),
     ], [
         ("rewire-small", case_rewire_small, len(SMALL), 10),
